@@ -1236,8 +1236,13 @@ std::ostream& expression_t::print(std::ostream& os, bool old) const
     case ASS_RSHIFT:
     case MIN:
     case MAX:
-    case FRACTION:
-        embrace_strict(os, old, get(0), precedence);
+    case FRACTION: {
+        // assignments associate to the right, everything else here to the left
+        const bool right_assoc = (precedence == get_precedence(ASSIGN));
+        if (right_assoc)
+            embrace(os, old, get(0), precedence);
+        else
+            embrace_strict(os, old, get(0), precedence);
         switch (data->kind) {
         case FRACTION: os << " : "; break;
         case PLUS: os << " + "; break;
@@ -1274,8 +1279,12 @@ std::ostream& expression_t::print(std::ostream& os, bool old) const
         case MAX: os << " >? "; break;
         default: assert(0);
         }
-        embrace(os, old, get(1), precedence);
+        if (right_assoc)
+            embrace_strict(os, old, get(1), precedence);
+        else
+            embrace(os, old, get(1), precedence);
         break;
+    }
 
     case IDENTIFIER: os << data->symbol.get_name(); break;
 
